@@ -106,8 +106,16 @@ def _run(ctx, sysobj, shape, what, tags):
             return (1.0 - 0.6 * k[0], 4.0, 0.0)
 
         battery = shape["nodes"][0]["name"]
-        with sysh.Wrapped(ctx, sysobj, sysh.depth_of(shape), tag=lambda: "#b%d" % k[0]):
-            sysobj.batt_life(battery, cutoff=1.0, pfunc=pf, dfunc=df)
+        from .. import symx
+        from ..core import Skip
+
+        try:
+            with sysh.Wrapped(ctx, sysobj, sysh.depth_of(shape), tag=lambda: "#b%d" % k[0]):
+                sysobj.batt_life(battery, cutoff=1.0, pfunc=pf, dfunc=df)
+        except symx.NonFinite:
+            # without phases batt_life divides the capacity by the battery current: a path on which that current can be 0 has no
+            # defined time step (outside C18's quantifier, hence no subject for the read-only claim either)
+            raise Skip("battery current can be zero on this path")
         return None
     raise KeyError(what)
 
